@@ -16,7 +16,7 @@ FN = 'src/network/mod.rs'
 
 ASSUMPTIONS = [
     "callee contracts used, not bodies: Batcher::enqueue/flush/end (unit batcher), NextStrategy::index (unit next_strategy), prev.next() returns any element",
-    "End.inv (groups non-empty, in range, a partition of the sender indexes) is the postcondition of End::setup_senders (unit setup_senders)",
+    "End.inv (groups non-empty, in range, a partition of the sender indexes) is the postcondition of End::setup_senders, discharged on its real body by unit setup_senders (same spec text: that unit reads the grouping vocabulary from this file)",
     "Clone of a stream element yields an equal value (axiom_data_clone)",
     "V-ITER: three loop headers desugared (listed verbatim under coverage.rewrites); loop bodies are the real text",
 ]
